@@ -304,6 +304,9 @@ static void v_fold(int w) {
     }
 }
 
+/* folded (parent-slot) value of a counter */
+static uint64_t v_counter_value(const char *name) { return v_sh->slot[V_MAX_WORKERS].counters[v_counter(name)]; }
+
 static void v_finish(void) {
     struct v_slot *p = &v_sh->slot[V_MAX_WORKERS];
     for (int i = 0; i < v_ncounters; ++i) v_out("STAT %s %" PRIu64, v_counter_name[i], p->counters[i]);
@@ -417,7 +420,7 @@ static void v_pool_run(const char *prefix, uint64_t total, v_item_fn fn, void *c
         pid[w] = fork();
         if (pid[w] == 0) v_worker_loop(w, nw, (uint64_t)w, total, fn, ctx, timeout_s);
     }
-    int live = nw;
+    int live = nw, hangs = 0;
     while (live > 0) {
         int status = 0;
         pid_t p = wait(&status);
@@ -445,23 +448,52 @@ static void v_pool_run(const char *prefix, uint64_t total, v_item_fn fn, void *c
         }
         uint64_t resume = s->next;
         if (WIFEXITED(status) && WEXITSTATUS(status) == 98) {
-            /* watchdog: re-run that single item alone with a 20x limit before calling it a hang */
-            uint64_t item = s->cur;
-            pid_t q = fork();
-            if (q == 0) {
-                v_worker = w;
-                signal(SIGALRM, v_alarm_handler);
-                alarm((unsigned)timeout_s * 20);
-                s->in_item = 1;
-                fn(item, ctx);
-                _exit(0);
-            }
-            int st2 = 0;
-            waitpid(q, &st2, 0);
-            if (WIFEXITED(st2) && WEXITSTATUS(st2) == 0) {
-                /* slow, not hung */
+            /* watchdog: re-run that single item alone with a 20x limit (at most two minutes) before calling it a hang.
+             * Once one hang of this run has been confirmed that way the check has failed anyway: later expirations are
+             * reported as they are, and after three the rest of this index space is abandoned (reported as not
+             * exhaustive) - a library that deadlocks on every item must not keep the check busy for hours */
+            if (hangs == 0) {
+                uint64_t item = s->cur;
+                pid_t q = fork();
+                if (q == 0) {
+                    v_worker = w;
+                    signal(SIGALRM, v_alarm_handler);
+                    alarm((unsigned)(timeout_s * 20 > 120 ? 120 : timeout_s * 20));
+                    s->in_item = 1;
+                    fn(item, ctx);
+                    _exit(0);
+                }
+                int st2 = 0;
+                while (waitpid(q, &st2, 0) < 0 && errno == EINTR) {
+                }
+                if (WIFEXITED(st2) && WEXITSTATUS(st2) == 0) {
+                    /* slow, not hung */
+                } else {
+                    v_report_death(prefix, w, st2, WIFEXITED(st2) && WEXITSTATUS(st2) == 98);
+                    if (WIFEXITED(st2) && WEXITSTATUS(st2) == 98) ++hangs;
+                }
             } else {
-                v_report_death(prefix, w, st2, WIFEXITED(st2) && WEXITSTATUS(st2) == 98);
+                v_report_death(prefix, w, status, true);
+                ++hangs;
+            }
+            if (hangs >= 3) {
+                v_out("INFO %s: %d items hung, the rest of this index space is abandoned", prefix, hangs);
+                v_exhaustive = 0;
+                v_fold(w);
+                pid[w] = -1;
+                --live;
+                for (int i = 0; i < nw; ++i)
+                    if (pid[i] > 0) kill(pid[i], SIGKILL);
+                for (int i = 0; i < nw; ++i)
+                    if (pid[i] > 0) {
+                        int st3;
+                        while (waitpid(pid[i], &st3, 0) < 0 && errno == EINTR) {
+                        }
+                        v_fold(i);
+                        pid[i] = -1;
+                        --live;
+                    }
+                break;
             }
         } else {
             v_report_death(prefix, w, status, false);
